@@ -145,7 +145,6 @@ m("m41","src/fs/path/mod.rs","""                p.set_extension(""); // restore 
                     None
                 }""","""                let _ = OsString::new();
                 None""",["C11"],"output name -> source lookup tries only foo.ext.txtpp")
-m("m60","src/fs/shell.rs","""            .current_dir(work_dir.to_string())""","""            .current_dir(if std::path::Path::new(&work_dir.to_string()).is_absolute() { work_dir.to_string() } else { ".".to_string() })""",["C17"],"run working directory falls back to the process cwd for relative renderings")
 m("m_join_nl","src/core/execute/pp/mod.rs","""                let command = d.args.join(" ");""","""                let command = d.args.join("\n");""",["C17"],"run args joined with newline")
 
 m("m103","src/core/execute/mod.rs","""                    let _ = self.progress.add_total(directory.subdirs.len());
